@@ -159,6 +159,68 @@ def assembleOp (j : Json) : R Json := do
     return objJ (base ++ [("dense", matJ ratJ dense)])
   else return objJ base
 
+/-! ### `AssembleGeneral._sensitivity` : real (ℚ) or complex (ℚ(i), pairs `[re, im]`) data -/
+
+/-- Gaussian rationals for complex element matrices / seeds -/
+structure CQ where
+  re : Rat
+  im : Rat
+deriving DecidableEq
+instance : Inhabited CQ := ⟨⟨0, 0⟩⟩
+instance (n : Nat) : OfNat CQ n := ⟨⟨(n : Rat), 0⟩⟩
+instance : Add CQ := ⟨fun x y => ⟨x.re + y.re, x.im + y.im⟩⟩
+instance : Mul CQ := ⟨fun x y => ⟨x.re * y.re - x.im * y.im, x.re * y.im + x.im * y.re⟩⟩
+
+def asCQ (v : Json) : R CQ := do
+  match v with
+  | .arr #[a, b] => return ⟨← asRat a, ← asRat b⟩
+  | _ => return ⟨← asRat v, 0⟩
+def cqJ (z : CQ) : Json := Json.arr #[ratJ z.re, ratJ z.im]
+
+/-- generic over the scalar: `parse`/`pr` read and print it, `post` is `np.real` (real `x`) or the identity -/
+def sensG {α} [Inhabited α] [Add α] [Mul α] [OfNat α 0] [OfNat α 1]
+    (parse : Json → R α) (pr : α → Json) (post : α → α) (j : Json) : R Json := do
+  let d : Dom := ⟨← getNat j "nelx", ← getNat j "nely", ← getNat j "nelz"⟩
+  let el ← getList (asList parse) j "elmat"
+  let elA := (el.map List.toArray).toArray
+  let K := (elA.getD 0 #[]).size
+  let ndof := K / d.elemnodes
+  let m := d.elemnodes * ndof
+  let n := ndof * d.nnodes
+  let bc ← getOpt (asList asNat) j "bc"
+  let dcA := tab2A d.nel m (d.dofConn ndof)
+  let kind ← getStr j "seed"
+  if kind = "dense" then
+    let W ← getList (asList parse) j "W"
+    let WA := (W.map List.toArray).toArray
+    let dx := tab1A d.nel (assembleSensDense m (fn2 dcA) (fn2 elA) bc post (fn2 WA))
+    let after := tab2A n n (seedMask bc (fn2 WA))
+    return objJ [("dx", Json.arr (dx.map pr)), ("seed_after", matJ pr after)]
+  else if kind = "dyad" then
+    let shapeSet ← getBool j "shape_set"
+    let us ← getList (asList parse) j "us"
+    let vs ← getList (asList parse) j "vs"
+    let uA := (us.map List.toArray).toArray
+    let vA := (vs.map List.toArray).toArray
+    let nd := uA.size
+    match assembleSensDyad? shapeSet m (fn2 dcA) (fn2 elA) bc post nd (fn2 uA) (fn2 vA) with
+    | none => return objJ [("dx", Json.null)]
+    | some f =>
+      let dx := tab1A d.nel f
+      let ua := tab2A nd n (fun k => vecMask bc (fn2 uA k))
+      let va := tab2A nd n (fun k => vecMask bc (fn2 vA k))
+      return objJ [("dx", Json.arr (dx.map pr)), ("us_after", matJ pr ua), ("vs_after", matJ pr va)]
+  else throw "bad seed kind"
+
+/-- `{"m":"c08.sens", grid, "elmat", "bc", "seed":"dense"|"dyad", "W" | "us","vs","shape_set", "cx":bool, "xreal":bool}` -/
+def sensOp (j : Json) : R Json := do
+  let cx ← getBool j "cx"
+  let xreal ← getBool j "xreal"
+  if cx then
+    sensG asCQ cqJ (if xreal then (fun z : CQ => (⟨z.re, 0⟩ : CQ)) else id) j
+  else sensG asRat ratJ id j
+
 def handlers : List (String × (Json → R Json)) :=
-  [("c08.getB", getBOp), ("c08.getD", getDOp), ("c08.elmat", elmatOp), ("c08.assemble", assembleOp)]
+  [("c08.getB", getBOp), ("c08.getD", getDOp), ("c08.elmat", elmatOp), ("c08.assemble", assembleOp),
+   ("c08.sens", sensOp)]
 end PymotoVerif.Drv.C08
